@@ -1,1 +1,87 @@
-let eval (_ : string array) : string = "unknown-function"
+open Model
+open Driver_common
+
+let meth_of_string = function
+  | "create" -> MCreate | "mkdir" -> MMkdir | "mkdirall" -> MMkdirAll | "open" -> MOpen
+  | "openfile" -> MOpenFile | "remove" -> MRemove | "removeall" -> MRemoveAll
+  | "rename" -> MRename | "stat" -> MStat | "chmod" -> MChmod | "chown" -> MChown
+  | "chtimes" -> MChtimes | "lstat" -> MLstat | "symlink" -> MSymlink
+  | "readlink" -> MReadlink | "lchown" -> MLchown
+  | s -> failwith ("bad meth " ^ s)
+
+let string_of_meth = function
+  | MCreate -> "create" | MMkdir -> "mkdir" | MMkdirAll -> "mkdirall" | MOpen -> "open"
+  | MOpenFile -> "openfile" | MRemove -> "remove" | MRemoveAll -> "removeall"
+  | MRename -> "rename" | MStat -> "stat" | MChmod -> "chmod" | MChown -> "chown"
+  | MChtimes -> "chtimes" | MLstat -> "lstat" | MSymlink -> "symlink"
+  | MReadlink -> "readlink" | MLchown -> "lchown"
+
+let errclass_str = function
+  | EPERM -> "EPERM" | EHiddenNotExist -> "HiddenNotExist"
+  | EHiddenPerm -> "HiddenPermission" | EHiddenCheck -> "HiddenCheckFailed"
+
+let parse_aux s =
+  if s = "-" || s = "" then [] else List.map (fun x -> z_of_int (int_of_string x)) (String.split_on_char ',' s)
+let aux_str l = if l = [] then "-" else String.concat "," (List.map (fun z -> string_of_int (int_of_z z)) l)
+
+let optb = function None -> "err" | Some b -> bool_str b
+
+let layer (f : string array) : string =
+  let kind = f.(1) in
+  let m = meth_of_string f.(3) in
+  let c = { c_meth = m; c_a = decs f.(4); c_b = (match m with MRename | MSymlink -> decs f.(5) | _ -> []); c_aux = parse_aux f.(6) } in
+  let stub = decs f.(7) in
+  let (out, reported) =
+    match kind with
+    | "prefix" ->
+        let pfx = clean (decs f.(2)) in
+        let o = prefixfs_call pfx c in
+        (o, (fun (c' : call) -> match m with
+              | MCreate | MOpen | MOpenFile -> "name=" ^ encs (prefixfs_file_name pfx c'.c_a)
+              | MStat | MLstat -> "finame=" ^ encs (prefixfs_info_name pfx c'.c_a)
+              | MReadlink -> "link=" ^ encs (prefixfs_readlink_result pfx stub)
+              | _ -> "-"))
+    | "volume" ->
+        let o = volumefs_call c in
+        (o, (fun (c' : call) -> match m with
+              | MCreate | MOpen | MOpenFile -> "name=" ^ encs c'.c_a
+              | MStat | MLstat -> "finame=" ^ encs (base c'.c_a)
+              | MReadlink -> "link=" ^ encs (volumefs_readlink_result stub)
+              | _ -> "-"))
+    | "hidden" ->
+        let hs = hidden_norm (dec_list f.(2)) in
+        let o = hiddenfs_call hs c in
+        (o, (fun (c' : call) -> match m with
+              | MCreate | MOpen | MOpenFile -> "name=" ^ encs c'.c_a
+              | MStat | MLstat -> "finame=" ^ encs (base c'.c_a)
+              | MReadlink -> "link=" ^ encs stub
+              | _ -> "-"))
+    | _ -> failwith "bad kind"
+  in
+  match out with
+  | Rej e -> "rej " ^ errclass_str e
+  | Multi -> "multi"
+  | Fwd c' ->
+      Printf.sprintf "fwd %s %s %s %s %s" (string_of_meth c'.c_meth) (encs c'.c_a) (encs c'.c_b) (aux_str c'.c_aux) (reported c')
+
+let eval (f : string array) : string =
+  match f.(0) with
+  | "prefixpath" ->
+      (match prefix_path (clean (decs f.(1))) (decs f.(2)) with
+       | None -> "err EPERM" | Some r -> "ok " ^ encs r)
+  | "prefixclean" -> encs (clean (decs f.(1)))
+  | "volpath" -> "ok " ^ encs (clean (decs f.(2))) ^ " %e"
+  | "hiddenctor" -> enc_list (hidden_norm (dec_list f.(1)))
+  | "ishidden" -> optb (is_hidden (decs f.(1)) (dec_list f.(2)))
+  | "parenthidden" -> optb (is_parent_of_hidden (decs f.(1)) (dec_list f.(2)))
+  | "dircontains" -> optb (dir_contains (decs f.(1)) (decs f.(2)))
+  | "toabssymlink" -> encs (to_abs_symlink (decs f.(1)) (decs f.(2)))
+  | "bisabs" -> bool_str (is_abs (decs f.(1)))
+  | "hlist" ->
+      let hs = hidden_norm (dec_list f.(2)) in
+      let counts = List.map (fun x -> z_of_int (int_of_string x)) (String.split_on_char ',' f.(4)) in
+      let rs = hidden_list_calls (decs f.(1)) hs counts (dec_list f.(3)) in
+      String.concat " " (List.map (function
+        | LOk l -> "ok:" ^ enc_list l | LEof l -> "eof:" ^ enc_list l | LErr -> "err") rs)
+  | "layer" -> layer f
+  | _ -> "unknown-function"
